@@ -54,6 +54,9 @@ def raw_cost(spec, x):
         return float(np.sum((x - a) ** 2) + 0.3 * np.sum(np.cos(3 * x)))
     if fam == 'plateau':
         return float(np.floor(np.sum(np.abs(x - a))))
+    if fam == 'stair':        # a quadratic bowl quantised to steps of 1/k: exact ties occur between nearby points
+        k = float(spec.get('k', 10.0))
+        return float(np.floor(k * np.sum(w * (x - a) ** 2)) / k)
     if fam == 'infhalf':
         if x[0] > a[0] + 1.0:
             return float('inf')
@@ -132,6 +135,8 @@ def cost_specs(draw, dim, families=('quad', 'rosen', 'abs', 'cos', 'plateau', 'i
     a = draw(st.lists(st.one_of(st.sampled_from([0.0, 1.0, -1.5, 0.5, 2.0]), finite_floats(-3, 3)), min_size=dim, max_size=dim))
     w = draw(st.lists(st.sampled_from([1.0, 1.0, 0.5, 10.0, 1e3, 1e-2]), min_size=dim, max_size=dim))
     spec = dict(fam=fam, a=a, w=w, ret=draw(st.sampled_from(list(rets))))
+    if fam == 'stair':
+        spec['k'] = draw(st.sampled_from([1.0, 2.0, 10.0, 10.0, 64.0]))
     if fam == 'vec':
         spec['c'] = draw(st.sampled_from([0.0, 0.25, 1.0]))
         spec['ret'] = 'array'
